@@ -293,7 +293,7 @@ def write_evidence(prop, pc, tier, seed, results, obligations, n_dis, fuc, smt_m
             'uncovered_clauses': pc.get('uncovered', []),
             'known_findings_reported': [dict(id=e.get('id'), function=f['function'], kind=f['kind']) for e, f in known_hits],
             'samples': samples,
-            'explanation': pc.get('explanation', ''),
+            'explanation': pc.get('explanation') or (pc.get('level_text', '') + ' [' + pc.get('level_note', '') + ']'),
             'units': [bv['unit'] for bv in results],
             'extraction': 'functions re-extracted from /repo working tree this run; rules applied per function are in functions_under_contract[].rules',
         },
